@@ -489,6 +489,16 @@ func parseTime(s string) (time.Time, bool) {
 // text.
 func Match(exp, got *N) string { return match(exp, got, "$") }
 
+// MatchInput is Match for reading back a *rendered input*: merge keys in the text are applied (flattened) on the
+// read-back side too. Outputs of the library never contain merge keys, so Match does not flatten them.
+func MatchInput(exp, got *N) string {
+	flattenGot = true
+	defer func() { flattenGot = false }()
+	return match(exp, got, "$")
+}
+
+var flattenGot bool
+
 func match(exp, got *N, path string) string {
 	if exp == nil || got == nil {
 		if exp == got {
@@ -529,6 +539,9 @@ func match(exp, got *N, path string) string {
 		if a != b && !(math.IsNaN(a) && math.IsNaN(b)) {
 			return fmt.Sprintf("%s: want %v, got %v", path, a, b)
 		}
+		if exp.K == KInt && got.K == KFloat && !flattenGot {
+			return fmt.Sprintf("%s: integer %d came back as the float %s (re-typed)", path, exp.I, fmtFloat(got.F))
+		}
 		return ""
 	}
 	if exp.K == KTime {
@@ -568,7 +581,9 @@ func match(exp, got *N, path string) string {
 		}
 	case KMap:
 		exp = flattenMerges(exp)
-		got = flattenMerges(got)
+		if flattenGot {
+			got = flattenMerges(got)
+		}
 		gotIdx := map[string]int{}
 		for i, k := range got.Keys {
 			if _, dup := gotIdx[k]; dup {
